@@ -1415,9 +1415,26 @@ def place_type(f, place):
                             nty = fl['ty']
                     if nty:
                         break
-                # generic parameter substitution for the one generic local ADT we care about
-                if nty == 'A' and '<' in ty:
-                    nty = ty[ty.index('<') + 1:ty.rindex('>')]
+                # generic parameter substitution (A, T/#0 ...) from the instantiated container type
+                mg = re.match(r'^(\w+)(/#(\d+))?$', nty or '')
+                if mg and '<' in ty and (nty == 'A' or mg.group(2)):
+                    inner = ty[ty.index('<') + 1:ty.rindex('>')]
+                    args_, depth_, cur_ = [], 0, ''
+                    for ch in inner:
+                        if ch in '<([':
+                            depth_ += 1
+                        elif ch in '>)]':
+                            depth_ -= 1
+                        if ch == ',' and depth_ == 0:
+                            args_.append(cur_.strip())
+                            cur_ = ''
+                        else:
+                            cur_ += ch
+                    args_.append(cur_.strip())
+                    args_ = [a for a in args_ if not a.startswith("'")]
+                    idx_ = int(mg.group(3)) if mg.group(3) else 0
+                    if idx_ < len(args_):
+                        nty = args_[idx_]
             elif pr['adt'] == 'std::option::Option' and variant == 'Some' and ty.startswith('std::option::Option<'):
                 nty = ty[len('std::option::Option<'):-1]
             ty = nty
